@@ -238,6 +238,25 @@ Definition read_package (datahash_of : content -> string) (d : disk) (dir ctlh :
       end
   end.
 
+(* cachedPackage is NOT one atomic look at the directory: control and signature
+   are looked up first (state d1), data and tar later (state d2, after other
+   builders have moved) *)
+Definition read_package_seq (datahash_of : content -> string) (d1 d2 : disk) (dir ctlh : string) : lookup :=
+  match resolve d1 (PMember dir MCtl ctlh) with
+  | None => Miss
+  | Some (ctl, _) =>
+      let sg := match resolve d1 (PMember dir MSig ctlh) with Some (s, _) => Some s | None => None end in
+      let dh := datahash_of ctl in
+      match resolve d2 (PMember dir MDat dh) with
+      | None => Miss
+      | Some (dat, _) =>
+          match resolve d2 (PMember dir MTar dh) with
+          | Some (tar, _) => Hit {| m_ctl := ctl; m_sig := sg; m_dat := dat; m_tar := tar |}
+          | None => NeedsRebuild
+          end
+      end
+  end.
+
 (* the online index lookup: os.Stat(<etag file>) then os.Open *)
 Definition read_index (d : disk) (dir etag : string) : option (content * bool) :=
   resolve d (PIndex dir etag).
